@@ -1630,7 +1630,9 @@ class BaseLoss(object):
         dealing with estimating the initial value as well
         """
         x0 = ode_utils.check_array_type(x0)
-        self._x0 = np.copy(x0)
+        # always floating point: _unrollState writes free initial values into
+        # this array in place and an integer array would truncate them
+        self._x0 = np.array(x0, dtype=float)
 
     def _setLossType(self):
         """
